@@ -10,7 +10,7 @@ from vlib.facts import kids, strip, walk, is_call, call_args, call_object, calle
 from vlib.paren import Paren, ANY, CLEAN
 from vlib.cfg import write_target
 from vlib.work import AnalysisBroken
-from vlib.exprterm import Builder, normal_form, show, NF, Poly, TermError
+from vlib.exprterm import Builder, normal_form, show, NF, Poly, TermError, explore
 
 UNITS = ["src/occa/internal/lang/modes/oklForStatement.cpp", "src/occa/internal/lang/modes/withLauncher.cpp", "src/occa/internal/lang/modes/cuda.cpp",
          "src/occa/internal/lang/modes/opencl.cpp", "src/occa/internal/lang/modes/metal.cpp", "src/occa/internal/lang/modes/dpcpp.cpp",
@@ -161,15 +161,26 @@ def run(ctx):
                 want_map = NF(I + (S * X if stepped else X)) if pos else NF(I - (S * X if stepped else X))
                 for f, want, what, params in ((gic, want_count, "count", {}), (mdvf, want_map, "value", {"magicIterator": "index"})):
                     try:
-                        t = Builder(prog, f, fields, cfgd, params).result()
-                        got = normal_form(t)
+                        outcomes = explore(lambda f=f, params=params: Builder(prog, f, fields, cfgd, params), lambda b: b.result())
+                        outcomes = [(ch, t, normal_form(t)) for (ch, t) in outcomes]
                     except TermError as e:
                         raise AnalysisBroken("%s [%s]: builder not reducible to a closed form: %s" % (f.q, tag, e))
-                    ok = got == want
-                    R.ob("C17-R5", ok, f.q, "%s[%s]" % (what, tag), "%s:%d" % (f.relfile, f.d["line"]),
-                         ("builds %s = %r" % (show(t), got)) if ok else
-                         "builds %s = %r, but the sequential loop %s %r: they differ for some header values (a run-time empty or short range launches a wrong number of work items / maps an index to a value the loop never takes)"
-                         % (show(t), got, "runs" if what == "count" else "takes as its k-th value", want))
+                    for (ch, t, got) in outcomes:
+                        ok = got == want
+                        if not ok and ch and got.den is None and want.den is None:
+                            # a branch taken under a condition on a header field (e.g. "the initial value is the constant 0"): equal if the
+                            # difference vanishes once that field is zero
+                            diff = got.out - want.out
+                            for fld, sym in fields.items():
+                                if any(fld in k and v for (k, v) in ch):
+                                    z = Poly({mono: c_ for mono, c_ in diff.m.items() if sym not in mono})
+                                    if z.is_zero():
+                                        ok = True
+                        extra = "" if not ch else " when " + " and ".join("%s%s" % ("" if v else "not ", k) for (k, v) in ch)
+                        R.ob("C17-R5", ok, f.q, "%s[%s]%s" % (what, tag, extra[:60]), "%s:%d" % (f.relfile, f.d["line"]),
+                             ("builds %s = %r" % (show(t), got)) if ok else
+                             "builds %s = %r%s, but the sequential loop %s %r: they differ for some header values (a run-time empty or short range launches a wrong number of work items / maps an index to a value the loop never takes)"
+                             % (show(t), got, extra, "runs" if what == "count" else "takes as its k-th value", want))
                 # an invalid header yields no expression at all
     for f in (gic, mdvf):
         t = Builder(prog, f, fields, {"this->valid": False}, {"magicIterator": "index"}).result()
